@@ -417,7 +417,14 @@ def canonical(tr: "Translator") -> dict:
                        "slots": "__slots__" in cls.__dict__}, "fields": fields}
     from kio.schema import index as sidx
     from kio.schema.errors import ErrorCode
-    return {"classes": out,
+    import kio.schema.types as stypes
+    # the generated entity types (kio/schema/types.py): their bases decide which values inhabit a field's declared type
+    entity_types = {}
+    for n, o in sorted(vars(stypes).items()):
+        if isinstance(o, type) and o.__module__ == stypes.__name__:
+            entity_types[n] = {"bases": [f"{b.__module__}.{b.__qualname__}" for b in o.__bases__],
+                               "low": getattr(o, "__low__", None), "high": getattr(o, "__high__", None)}
+    return {"classes": out, "entity_types": entity_types,
             "api_key_map": {str(k): v for k, v in sidx.api_key_map.items()},
             "schema_name_map": {n: {str(v): {et.name: p for et, p in tm.items()} for v, tm in vm.items()} for n, vm in sidx.schema_name_map.items()},
             "error_codes": [[int(m.value), m.name, bool(m.retriable)] for m in ErrorCode]}
